@@ -155,6 +155,7 @@ func runK2(e *env, name string, batches []*k2Batch) (*k2Result, error) {
 			var calls []*k2Call
 			var reqs []*sx.Node
 			var reqCalls [][]*k2Call
+			var reqSrc []string
 			failNode := sx.H("failon")
 			for _, f := range kb.FailOn {
 				failNode.Add(sx.H("f", sx.S(f[0]), sx.S(f[1])))
@@ -267,6 +268,7 @@ func runK2(e *env, name string, batches []*k2Batch) (*k2Result, error) {
 				}
 				reqs = append(reqs, req)
 				reqCalls = append(reqCalls, mine)
+				reqSrc = append(reqSrc, kb.Convs[oc.Raw.InterfaceName])
 			}
 			answers, err := ex.Run(lines)
 			if err != nil {
@@ -299,10 +301,7 @@ func runK2(e *env, name string, batches []*k2Batch) (*k2Result, error) {
 					res.SymEqual += sr.Equal
 					res.SymUnliftable += len(sr.Unliftable)
 					for _, d := range sr.Diffs {
-						src := ""
-						if len(reqCalls[i]) > 0 {
-							src = reqCalls[i][0].Source
-						}
+						src := reqSrc[i]
 						res.SymDiffs = append(res.SymDiffs, map[string]any{"batch": kb.Tag, "converter_source": src, "method": d.Method,
 							"model_term": d.Model, "emitted_code_term": d.Impl})
 					}
